@@ -27,7 +27,7 @@ def parse_utc(s):
 def run(ck: Check) -> None:
     rng = ck.rng
     cases = []
-    for i in range(700 if ck.thorough else 160):
+    for i in range(ck.n(700, 160)):
         a = rng.choice(CLOCKS)
         b = a + dt.timedelta(seconds=rng.choice([0, 0, 0.5, 1, 2, 61]))
         ks = [gen.key(j) for j in rng.sample(range(8), rng.randint(0, 3))]
@@ -124,7 +124,7 @@ def run(ck: Check) -> None:
     # root metadata built this way, once threshold-signed, verifies as successor of the previous version and can authorize its own successor
     from .. import impl
     vcases = []
-    for p, md in roots[: (60 if ck.thorough else 20)]:
+    for p, md in roots[: (ck.n(60, 20))]:
         ks = [k for k in (gen.key(j) for j in range(10)) if k.hex in p["root_pubkeys"]]
         thr = p["root_threshold"]
         if thr > len(ks):
